@@ -28,6 +28,7 @@ build() { # $1 = target dir, rest = extra cargo args
 
 if [ "${1:-}" = "--build" ]; then
   build "$HERE/harness/target" || exit 2
+  build "$HERE/harness/target-nounicode" --no-default-features || exit 2
   exit 0
 fi
 [ $# -ge 2 ] || { sed -n 2,8p "$HERE/run.sh"; exit 2; }
@@ -36,14 +37,19 @@ ID="$1"; shift
 build "$HERE/harness/target" || exit 2
 BIN="$HERE/harness/target/release/vcheck"
 if [ "$1" = "--replay" ]; then
+  case "$2" in
+    *.nounicode.json)
+      build "$HERE/harness/target-nounicode" --no-default-features || exit 2
+      exec "$HERE/harness/target-nounicode/release/vcheck" "$ID" --replay "$2" ;;
+  esac
   exec "$BIN" "$ID" --replay "$2"
 fi
 TIER="$1"
-if [ "$ID" = "C16" ] && [ "$TIER" = "thorough" ]; then
+if [ "$ID" = "C16" ]; then
   # the inline splitter differs without the `unicode` feature: same check on a second build
   build "$HERE/harness/target-nounicode" --no-default-features || exit 2
   SIDE="$HERE/harness/target-nounicode/C16.nounicode.json"
-  VERIF_EVIDENCE_PATH="$SIDE" "$HERE/harness/target-nounicode/release/vcheck" C16 thorough
+  VERIF_BUILD_VARIANT=".nounicode" VERIF_EVIDENCE_PATH="$SIDE" "$HERE/harness/target-nounicode/release/vcheck" C16 "$TIER"
   rc=$?
   [ $rc -eq 0 ] || exit $rc
   export VERIF_C16_SIDE="$SIDE"
